@@ -191,6 +191,55 @@ func checkUpdate(c *fw.Ctx, up *ssa.Function) {
 		}
 		c.Check(ok, rule, "cached "+content+" is refreshed together with "+ev, c.P.Pos(up.Pos()), "", "the cached content and the event pointer that keys it are not updated together")
 	}
+	// a cached content is rebuilt whenever the provider's event differs from the cached one or
+	// there is none: without an event the content is built from defaults that depend on other
+	// cached state (the creator), so a "built once" flag keeps stale levels
+	for content, ev := range pairs {
+		for _, st := range stores[content] {
+			if st.Parent() != up {
+				continue
+			}
+			d, okD := fw.CondAt(nil, st.Block())
+			if !okD {
+				continue
+			}
+			verdict, detail := "ok", ""
+			for _, term := range d {
+				keyed := false
+				other := ""
+				for _, l := range term {
+					a := l.Atom
+					switch {
+					case strings.Contains(a, "recv."+ev+" == nil)") && l.Pos:
+						keyed = true
+					case strings.Contains(a, "recv."+ev) && strings.Contains(a, " == ") && !strings.HasSuffix(a, "== nil)") && !l.Pos:
+						keyed = true
+					case strings.HasSuffix(a, "#0 == nil)") && strings.Contains(a, "(gmsl.AuthEventProvider).") && l.Pos:
+						keyed = true
+					case strings.Contains(a, "recv.") && !strings.Contains(a, "recv."+ev) && !strings.Contains(a, "recv.provider"):
+						other = l.String()
+					}
+				}
+				if keyed {
+					continue
+				}
+				if other != "" {
+					verdict, detail = "fail", "the cached "+content+" is rebuilt under "+other+" rather than whenever the provider's event is absent or differs from the cached one: content built from defaults (which depend on the cached create event) is kept when that state changes"
+				} else if verdict == "ok" {
+					verdict, detail = "undecided", "a refresh path is not keyed on the event in a form the rule recognises: "+fw.DNF{term}.String()
+				}
+			}
+			construct := "cached " + content + " is rebuilt whenever its event is absent or differs"
+			switch verdict {
+			case "ok":
+				c.Ok(rule, construct, c.P.Pos(fw.InstrPos(st)), "")
+			case "fail":
+				c.Fail(rule, construct, c.P.Pos(fw.InstrPos(st)), detail)
+			default:
+				c.Undecided(rule, construct, detail)
+			}
+		}
+	}
 	// refresh condition mentions event identity
 	n := 0
 	for _, rf := range region {
